@@ -1617,6 +1617,13 @@ func emptyStringVerdict(e smbgen.Entry, c framingCase, full []byte, at, framed i
 	head, tail := full[ds:at], full[at+framed:]
 	ref0 := refString(f, nil)
 	for k := 0; k < len(ref0); k++ {
+		// What is missing of the empty string from its k-th byte on is zeros (length, terminator). If the block
+		// goes on with at least as many zero bytes - a pad - then "the string is whole and the pad behind it got
+		// shorter" explains the same bytes: not reported. (A string followed by another buffer-format string, the
+		// usual case, is followed by a non-zero format byte.)
+		if missing := len(ref0) - k; k >= 1 && len(tail) >= missing && bytes.Equal(tail[:missing], make([]byte, missing)) {
+			continue
+		}
 		if bytes.Equal(data0, append(append(append([]byte{}, head...), ref0[:k]...), tail...)) {
 			return []vf.Finding{vf.F(c.Struct+"."+c.Field, "empty-string-emitted-without-its-framing", "format %#02x: with the string empty the data block is %x; the block with the content taken out is %x (the empty string is %x, %d of its %d bytes were emitted)", f, data0[:min(len(data0), 48)], append(append(append([]byte{}, head...), ref0...), tail...)[:min(len(head)+len(ref0)+len(tail), 48)], ref0, k, len(ref0))}
 		}
